@@ -198,6 +198,10 @@ func (e *Engine) getPath(v Val, path []PathEl) Val {
 	}
 	av, ok := v.(ArrayV)
 	if !ok {
+		if u, isU := v.(Union); isU {
+			// arrays of different length merged under a guard (e.g. results of make with different sizes)
+			return e.mapUnion(u, func(x Val) Val { return e.getPath(x, path) })
+		}
 		return Poison{fmt.Sprintf("getPath: index into %T", v)}
 	}
 	if p.field == -3 {
@@ -216,6 +220,10 @@ func (e *Engine) getPath(v Val, path []PathEl) Val {
 	}
 	if p.idx.IsConst() {
 		if p.idx.val >= uint64(len(av.e)) {
+			// only reachable in states whose bounds guard already failed (infeasible path): any value will do
+			if len(av.e) > 0 {
+				return e.getPath(e.zeroLike(av.e[0]), path[1:])
+			}
 			return Poison{"getPath: constant index out of range"}
 		}
 		return e.getPath(av.e[p.idx.val], path[1:])
@@ -296,6 +304,16 @@ func (e *Engine) termRange(t *Term, depth int) (uint64, uint64, bool) {
 		if r, ok := e.varRange[t]; ok {
 			return r[0], r[1], true
 		}
+	case OpUdiv, OpSdiv:
+		if t.args[1].IsConst() && t.args[1].val > 0 && t.args[1].val < 1<<31 {
+			if l, h, ok := e.termRange(t.args[0], depth+1); ok && h < 1<<62 {
+				return l / t.args[1].val, h / t.args[1].val, true
+			}
+		}
+	case OpSext:
+		if l, h, ok := e.termRange(t.args[0], depth+1); ok && h < 1<<uint(t.args[0].w-1) {
+			return l, h, true
+		}
 	case OpLshr:
 		if t.args[1].IsConst() {
 			if _, h, ok := e.termRange(t.args[0], depth+1); ok {
@@ -355,7 +373,7 @@ func (e *Engine) setPath(v Val, path []PathEl, nv Val) Val {
 	r := ArrayV{e: append([]Val(nil), av.e...)}
 	if p.idx.IsConst() {
 		if p.idx.val >= uint64(len(av.e)) {
-			return Poison{"setPath: constant index out of range"}
+			return r // infeasible path (the bounds guard is in the path condition): leave the array unchanged
 		}
 		r.e[p.idx.val] = e.setPath(av.e[p.idx.val], path[1:], nv)
 		return r
